@@ -59,6 +59,22 @@ pub fn run(o: &Opts) {
                 ("planB", SourceBlockEncoder::with_encoding_plan(b as u8, &cfg_b, &block, &plan_b)),
                 ("object", whole.get_block_encoders()[b as usize].clone()),
             ];
+            // a plan generated for ANOTHER block size with the same K': the constructor may refuse it (it does today); if it
+            // accepts it, the packets must still be the right ones
+            let kp = raptorq::extended_source_block_symbols(k as u32) as usize;
+            for k1 in [k.wrapping_sub(1), k.wrapping_sub(3), k + 1, kp] {
+                if k1 == 0 || k1 == k || k1 > kp || raptorq::extended_source_block_symbols(k1 as u32) as usize != kp {
+                    continue;
+                }
+                let foreign = SourceBlockEncodingPlan::generate(k1 as u16);
+                match catch(AssertUnwindSafe(|| SourceBlockEncoder::with_encoding_plan(b as u8, &cfg_b, &block, &foreign))) {
+                    Ok(enc) => {
+                        window(&mut tr, "foreignplan", &enc, b as u8, 0, 6);
+                        window(&mut tr, "foreignplan", &enc, b as u8, rng.random_range(0..((1u32 << 24) - k as u32 - 4)), 3);
+                    }
+                    Err(_) => tr.emit(json!({"ev":"window","enc":"foreignplan","sbn":b,"s":0,"n":0,"res":"refused","packets":[],"k1":k1})),
+                }
+            }
             let top = (1u32 << 24) - k as u32; // number of repair indices
             for w in 0..nwin {
                 let n: u32 = rng.random_range(1..=8);
